@@ -178,10 +178,18 @@ class C16GeometryND(Harness):
     def instances(self, tier):
         for shape in ([(2, 2), (2, 1, 2)] if tier == "quick" else [(2, 2), (3, 2), (2, 1, 2), (2, 2, 2)]):
             yield f"gnd-S{'x'.join(map(str, shape))}", dict(shape=list(shape))
+        # an axis whose two bins are separated by a gap (StaticBinning from pairs): widths / sizes do not include the gap
+        yield "gnd-S2x2-gap0", dict(shape=[2, 2], gap=0)
+        yield "gnd-S2x2-gap1", dict(shape=[2, 2], gap=1)
 
     def declare(self, cx, p):
         shape = p["shape"]
-        return {"f": declare_cells(cx, "f", shape, "real"), "e": [declare_edges(cx, f"e{k}_", shape[k]) for k in range(len(shape))]}
+        x = {"f": declare_cells(cx, "f", shape, "real"), "e": [declare_edges(cx, f"e{k}_", shape[k]) for k in range(len(shape))]}
+        if p.get("gap") is not None:
+            x["g"] = cx.real("g")     # width of the gap between the two bins of the gapped axis
+            if cx.sym:
+                cx.assume(x["g"] > 0, x["g"] <= 8)
+        return x
 
     def drive(self, E, p, x):
         np = E.np
@@ -189,7 +197,17 @@ class C16GeometryND(Harness):
         shape = p["shape"]
         D = len(shape)
         cls = nd.Histogram2D if D == 2 else nd.HistogramND
-        h = cls([np.asarray(x["e"][k]) for k in range(D)], np.asarray(nested(x["f"], shape), dtype=float))
+        bins = [np.asarray(x["e"][k]) for k in range(D)]
+        if p.get("gap") is not None:
+            e = x["e"][p["gap"]]
+            bins[p["gap"]] = np.asarray([[e[0], e[1]], [e[1] + x["g"], e[2] + x["g"]]])
+        h = cls(bins, np.asarray(nested(x["f"], shape), dtype=float))
+        if p.get("gap") is not None:
+            k = p["gap"]
+            return {"gapped": True, "sizes": _tolist(h.bin_sizes), "dens": _tolist(h.densities), "total_size": h.total_size, "total": h.total,
+                    "widths": [_tolist(h.get_bin_widths(a)) for a in range(D)], "mesh_widths": [_tolist(a) for a in h.get_bin_widths()],
+                    "left": [_tolist(h.get_bin_left_edges(a)) for a in range(D)], "right": [_tolist(h.get_bin_right_edges(a)) for a in range(D)],
+                    "centers": [_tolist(h.get_bin_centers(a)) for a in range(D)]}
         obs = {"sizes": _tolist(h.bin_sizes), "dens": _tolist(h.densities), "total_size": h.total_size, "total": h.total,
                "left": [_tolist(h.get_bin_left_edges(k)) for k in range(D)], "right": [_tolist(h.get_bin_right_edges(k)) for k in range(D)],
                "centers": [_tolist(h.get_bin_centers(k)) for k in range(D)], "widths": [_tolist(h.get_bin_widths(k)) for k in range(D)],
@@ -207,6 +225,24 @@ class C16GeometryND(Harness):
         e = [[cx.t(t) for t in x["e"][k]] for k in range(D)]
         idxs = product_indices(shape)
         f = {idx: cx.t(v) for idx, v in zip(idxs, x["f"])}
+        if obs.get("gapped"):
+            g = cx.t(x["g"])
+            L = [[e[k][0], e[k][1] + (g if k == p["gap"] else 0)] for k in range(D)]
+            R = [[e[k][1], e[k][2] + (g if k == p["gap"] else 0)] for k in range(D)]
+            for k in range(D):
+                for j in range(2):
+                    yield f"axis[{k}][{j}]", z3.And(cx.eq(obs["left"][k][j], L[k][j]), cx.eq(obs["right"][k][j], R[k][j]), cx.eq(obs["widths"][k][j], R[k][j] - L[k][j]),
+                                                     cx.eq(obs["centers"][k][j], (L[k][j] + R[k][j]) / 2))
+            tot = z3.RealVal(0)
+            for idx in idxs:
+                size = (R[0][idx[0]] - L[0][idx[0]]) * (R[1][idx[1]] - L[1][idx[1]])
+                tot = tot + size
+                tag = ",".join(map(str, idx))
+                yield f"bin_size[{tag}]", cx.eq(getcell(obs["sizes"], idx), size)
+                yield f"density[{tag}]", cx.quot_eq(getcell(obs["dens"], idx), f[idx], getcell(obs["sizes"], idx))
+                yield f"mesh_widths[{tag}]", z3.And([cx.eq(getcell(obs["mesh_widths"][k], idx), R[k][idx[k]] - L[k][idx[k]]) for k in range(D)])
+            yield "total_size_excludes_the_gap", cx.eq(obs["total_size"], tot)
+            return
         for k in range(D):
             for j in range(shape[k]):
                 yield f"axis[{k}][{j}]", z3.And(cx.eq(obs["left"][k][j], e[k][j]), cx.eq(obs["right"][k][j], e[k][j + 1]), cx.eq(obs["widths"][k][j], e[k][j + 1] - e[k][j]),
